@@ -850,6 +850,8 @@ def prims_var(
         mul = op.Mul(var, numel_float)
         # Subtract the correction value
         sub = op.Sub(numel_float, op.CastLike(correction, inp))
+        # The degrees of freedom are clamped at zero, as in PyTorch
+        sub = op.Max(sub, op.CastLike(0.0, inp))
         var = op.Div(mul, sub)
 
     if output_dtype is not None and output_dtype != -1:
